@@ -39,7 +39,9 @@ func main() {
 		replay     = flag.String("replay", "", "JSON file with a model: run the harness concretely inside the engine")
 		budget     = flag.Duration("budget", 0, "wall-clock budget per harness (0 = none)")
 		extraInits = flag.String("init", "", "additional packages whose init() is executed")
+		params     = paramFlag{}
 	)
+	flag.Var(params, "param", "harness parameter name=value (repeatable)")
 	flag.Parse()
 
 	t0 := time.Now()
@@ -136,7 +138,7 @@ func main() {
 		cfg := &sym.Config{
 			MaxSteps: *maxSteps, MaxDecisions: *maxDec, MaxPaths: *maxPaths, MaxViol: *maxViol,
 			Workers: *workers, SolverPath: *solver, TimeoutMs: *timeout, Trace: *trace, Verbose: *verbose,
-			InitPkgs: initPkgs, Known: knownSet, Replay: replayModel,
+			InitPkgs: initPkgs, Known: knownSet, Replay: replayModel, Params: params,
 		}
 		if *budget > 0 {
 			cfg.Deadline = time.Now().Add(*budget)
@@ -176,6 +178,22 @@ func main() {
 		fmt.Println()
 	}
 	os.Exit(exit)
+}
+
+type paramFlag map[string]int64
+
+func (p paramFlag) String() string { return fmt.Sprint(map[string]int64(p)) }
+func (p paramFlag) Set(s string) error {
+	kv := strings.SplitN(s, "=", 2)
+	if len(kv) != 2 {
+		return fmt.Errorf("want name=value")
+	}
+	var v int64
+	if _, err := fmt.Sscan(kv[1], &v); err != nil {
+		return err
+	}
+	p[kv[0]] = v
+	return nil
 }
 
 func load(repo, hdir string) (*ssa.Program, []*ssa.Package, error) {
